@@ -485,19 +485,19 @@ func Main(run *hx.Run) {
 
 	// 1. small n, dense unions, arguments mostly valid
 	r := run.R.Fork("dense")
-	for k, m := 0, run.Scale(250); k < m; k++ {
+	for k, m := 0, run.Scale(900); k < m; k++ {
 		n := r.Range(0, 8)
 		all3(run, n, genMixed(r, n, r.Range(4, 40), 55, 85))
 	}
 	// 2. arguments anywhere in [-2, n+1]
 	r = run.R.Fork("invalid")
-	for k, m := 0, run.Scale(120); k < m; k++ {
+	for k, m := 0, run.Scale(400); k < m; k++ {
 		n := r.Range(0, 6)
 		all3(run, n, genMixed(r, n, r.Range(4, 30), 50, 0))
 	}
 	// 3. larger n: a union phase that joins most classes, then queries, then mixed
 	r = run.R.Fork("random")
-	for k, m := 0, run.Scale(120); k < m; k++ {
+	for k, m := 0, run.Scale(350); k < m; k++ {
 		n := r.Range(9, 64)
 		ops := genMixed(r, n, r.Range(n/2, 2*n), 90, 95)
 		ops = append(ops, genMixed(r, n, r.Range(5, 40), 30, 90)...)
@@ -508,7 +508,7 @@ func Main(run *hx.Run) {
 	}
 	// 4. extreme forests
 	r = run.R.Fork("shapes")
-	for k, m := 0, run.Scale(40); k < m; k++ {
+	for k, m := 0, run.Scale(150); k < m; k++ {
 		n := r.Range(1, 64)
 		if r.Chance(1, 2) {
 			n = r.Range(1, 9)
